@@ -122,7 +122,13 @@ Shape(i) ==
                     con |-> ("creator" :> "v1" @@ "room_version" :> "v1")]
       [] i = 14 -> [type |-> "m.room.create", sk |-> "user", redacts |-> "none", tpi |-> NoTpi,
                     con |-> ("creator" :> "v1" @@ "m.federate" :> "v1")]
-AllShapes == 1..14
+      \* membership events that need a second server's signature (C04: the validity of the signatures of the
+      \* redacted form equals the original's, also when the original lacks a required signature)
+      [] i = 15 -> [type |-> "m.room.member", sk |-> "user", redacts |-> "none", tpi |-> NoTpi,
+                    con |-> ("membership" :> "invite" @@ "displayname" :> "v1")]          \* invited user on hs2
+      [] i = 16 -> [type |-> "m.room.member", sk |-> "user", redacts |-> "none", tpi |-> NoTpi,
+                    con |-> ("membership" :> "v1" @@ "join_authorised_via_users_server" :> "hs2" @@ "displayname" :> "v1")]
+AllShapes == 1..16
 \* shapes 13-14 matter where the create event is special (domainless room IDs); elsewhere they are one more
 \* m.room.create content and are not enumerated
 ShapesOf(v) == IF DomainlessRoomIDs(v) THEN ShapeIds ELSE ShapeIds \ {13, 14}
@@ -397,11 +403,17 @@ ParseTampered ==
 TamperSets(E) == {T \in SUBSET E : Cardinality(T) <= TamperMax \/ Cardinality(T) >= Cardinality(E) - 1}
 
 \* after a Redact() before (the event on the wire is invariant under redaction in every room version): only
-\* the hash tamperings alone or with one more element
+\* the hash tamperings alone or with one more element; after any other operation before (second signature,
+\* SetUnsigned): small tamper sets (the large ones are enumerated on the event as built)
 PreRedacted == Len(hist) > 0 /\ hist[1].op = "RD"
+\* shapes 15-16 repeat 4-5 for the sake of who must sign: single tamperings suffice
+SecondSignerShape == "membership" \in DOMAIN proto.con /\ (proto.con["membership"] = "invite"
+                        \/ (IF "join_authorised_via_users_server" \in DOMAIN proto.con
+                            THEN proto.con["join_authorised_via_users_server"] = "hs2" ELSE FALSE))
 TamperNext ==
     /\ phase = "tamper"
-    /\ \E T \in (IF PreRedacted THEN {X \in SUBSET ApplicableElems(ver, ev) : Cardinality(X) <= 1}
+    /\ \E T \in (IF PreRedacted \/ SecondSignerShape \/ Len(hist) > 0
+                  THEN {X \in SUBSET ApplicableElems(ver, ev) : Cardinality(X) <= (IF TamperMax > 2 /\ ~PreRedacted THEN 2 ELSE 1)}
                   ELSE TamperSets(ApplicableElems(ver, ev))) :
        \E hm \in HashModes :
         \* a forger's re-hash of unchanged hashed material is the original hash: same as "keep"
